@@ -214,6 +214,7 @@ impl World {
             Some(CtxOut::Conn(ConnOut::Connack(c))) => Some(c),
             _ => None,
         };
+        sim.clone_handle(0);
         if let Some((p, s)) = cfg.seed_ids {
             sim.handles[0].as_ref().unwrap().verif_seed_ids(p, s);
         }
